@@ -252,6 +252,32 @@ pub fn expand(e: &AEdit, tok: &str, ctx: &EditCtx, budget: Budget, r: &mut StdRn
                         m[a + bit / 8] ^= 1 << (bit % 8);
                         out.push(parts.with_payload_bytes(&m));
                     }
+                    // compensating changes that a checksum-like comparison would not see: the same bit
+                    // flipped in two bytes, two bytes exchanged, the field reversed
+                    if b - a >= 2 && budget.bits > 0 {
+                        for _ in 0..8usize.min(b - a) {
+                            let i = a + r.gen_range(0..b - a);
+                            let mut j = a + r.gen_range(0..b - a);
+                            if j == i {
+                                j = if i + 1 < b { i + 1 } else { a };
+                            }
+                            let mut m = bytes.clone();
+                            let bit = 1u8 << r.gen_range(0..8);
+                            m[i] ^= bit;
+                            m[j] ^= bit;
+                            out.push(parts.with_payload_bytes(&m));
+                            if bytes[i] != bytes[j] {
+                                let mut m = bytes.clone();
+                                m.swap(i, j);
+                                out.push(parts.with_payload_bytes(&m));
+                            }
+                        }
+                        let mut m = bytes.clone();
+                        m[a..b].reverse();
+                        if m != bytes {
+                            out.push(parts.with_payload_bytes(&m));
+                        }
+                    }
                     // single-character substitutions of the payload text inside the field
                     let n = parts.payload.len();
                     let c_lo = (a * 4) / 3;
@@ -277,7 +303,9 @@ pub fn expand(e: &AEdit, tok: &str, ctx: &EditCtx, budget: Budget, r: &mut StdRn
         }
         "trunc-tail" | "trunc-head" => {
             if let Some(bytes) = bytes {
-                let maxj = bytes.len().min(budget.other.max(1));
+                // every cut of a payload of ordinary size (each lands in some length window of the
+                // decryption code); a sample of a very long one
+                let maxj = if bytes.len() <= 512 { bytes.len() } else { bytes.len().min(budget.other.max(1)) };
                 for j in 1..=maxj {
                     let m = if e.k == "trunc-tail" { &bytes[..bytes.len() - j] } else { &bytes[j..] };
                     out.push(parts.with_payload_bytes(m));
@@ -457,6 +485,43 @@ pub fn expand(e: &AEdit, tok: &str, ctx: &EditCtx, budget: Budget, r: &mut StdRn
                         let mut p = parts.clone();
                         p.footer = Some(b64(&m));
                         out.push(p.text());
+                    }
+                    // compensating changes (same length, same XOR of the characters): two characters of the
+                    // segment exchanged, the segment reversed / rotated, the same bit flipped in two bytes
+                    {
+                        let fc: Vec<char> = f.chars().collect();
+                        let canonical = |s: &String| unb64(s).map(|d| b64(&d) == *s).unwrap_or(false);
+                        let mut cands: Vec<String> = vec![fc.iter().rev().collect()];
+                        if fc.len() >= 2 {
+                            let mut rot = fc.clone();
+                            rot.rotate_left(1);
+                            cands.push(rot.iter().collect());
+                            for _ in 0..6 {
+                                let i = r.gen_range(0..fc.len());
+                                let j = r.gen_range(0..fc.len());
+                                let mut sw = fc.clone();
+                                sw.swap(i, j);
+                                cands.push(sw.iter().collect());
+                            }
+                        }
+                        if fb.len() >= 2 {
+                            for _ in 0..6 {
+                                let i = r.gen_range(0..fb.len());
+                                let j = (i + 1 + r.gen_range(0..fb.len() - 1)) % fb.len();
+                                let bit = 1u8 << r.gen_range(0..8);
+                                let mut m = fb.clone();
+                                m[i] ^= bit;
+                                m[j] ^= bit;
+                                cands.push(b64(&m));
+                            }
+                        }
+                        for c in cands {
+                            if c != *f && canonical(&c) {
+                                let mut p = parts.clone();
+                                p.footer = Some(c);
+                                out.push(p.text());
+                            }
+                        }
                     }
                     let n = f.len();
                     for k in sample_positions(n * 63, budget.chars, r) {
